@@ -147,6 +147,8 @@ def build_source(cfg, gen):
     n, d = cfg["n"], cfg["d"]
     x = _rand(gen, *b, n, d)
     y = _randn(gen, *b, n, T_TASKS) if cfg["lik"] == "mt" else _randn(gen, *b, n)
+    for i in cfg.get("nan_src") or []:
+        y[..., i] = float("nan")        # a missing training target (the same position in every batch element)
     fixed_noise = _rand(gen, *b, n, lo=0.05, hi=0.5) if cfg["lik"] in ("fixed", "fixedl") else None
     lik = _make_likelihood(cfg, b, fixed_noise)
     m = _model_class(cfg)(x, y, lik, b, cfg["kernel"], d)
@@ -214,6 +216,19 @@ def settings_of(cfg):
             st.enter_context(gpytorch.settings.max_eager_kernel_size(0))     # lazy block slicing of the joint
         if cfg.get("lazy_off"):
             st.enter_context(gpytorch.settings.lazily_evaluate_kernels(False))
+        if cfg.get("fps") is not None:
+            st.enter_context(gpytorch.settings.fast_pred_samples(bool(cfg["fps"])))
+        if cfg.get("nan_policy"):
+            st.enter_context(gpytorch.settings.observation_nan_policy(cfg["nan_policy"]))
+        if cfg.get("chol_size") is not None or cfg.get("root_size") is not None:
+            # non-default decomposition branches; iterative solves at a tolerance that makes them exact for these sizes
+            if cfg.get("chol_size") is not None:
+                st.enter_context(gpytorch.settings.max_cholesky_size(int(cfg["chol_size"])))
+            if cfg.get("root_size") is not None:
+                st.enter_context(gpytorch.settings.max_root_decomposition_size(int(cfg["root_size"])))
+            st.enter_context(gpytorch.settings.cg_tolerance(1e-12))
+            st.enter_context(gpytorch.settings.eval_cg_tolerance(1e-12))
+            st.enter_context(gpytorch.settings.max_cg_iterations(2000))
         yield
 
 
@@ -240,7 +255,13 @@ def _same(a, b):
     if isinstance(a, list):
         return isinstance(b, list) and len(a) == len(b) and all(_same(p, q) for p, q in zip(a, b))
     if torch.is_tensor(a):
-        return torch.is_tensor(b) and a.shape == b.shape and torch.equal(a, b)
+        if not (torch.is_tensor(b) and a.shape == b.shape):
+            return False
+        if torch.equal(a, b):
+            return True
+        # bitwise equality up to NaN == NaN (missing targets)
+        return bool(a.is_floating_point() and b.is_floating_point() and torch.equal(a.isnan(), b.isnan())
+                    and torch.equal(torch.nan_to_num(a, nan=0.0), torch.nan_to_num(b, nan=0.0)))
     return a == b
 
 
@@ -453,15 +474,70 @@ def cases(tier, rng):
         # (8) full-rank Lanczos root (max_cholesky_size(0)): linear_operator accuracy only
         for fpv in (0, 1):
             out.append(_case(rng, lik="gauss", fpv=fpv, lanczos=1, n=rng.randint(4, 6), steps=[_step(rng, "plain", f=2)]))
+        # (15) missing (NaN) targets in the source and / or the fantasy data under observation_nan_policy mask / fill:
+        #      the specification deletes the missing observations (round 3: C04-7)
+        for pol, lik, fpv in itertools.product(["mask", "fill"], liks, [0, 1]):
+            b = rng.choice([[], [], [2]])
+            depth = rng.choice([1, 2])
+            n = rng.randint(4, 7)
+            where = rng.choice(["src", "src", "fant", "both"])
+            steps = []
+            for k in range(depth):
+                mode = rng.choice(["plain", "plain", "per", "shared"]) if k == 0 else "plain"
+                stp = _step(rng, mode, F=2, f=rng.randint(2, 3))
+                if where in ("fant", "both") and k == depth - 1:
+                    stp["nan_f"] = [rng.randrange(stp["f"])]
+                steps.append(stp)
+            nan_src = sorted(rng.sample(range(n), rng.choice([1, 2]))) if where in ("src", "both") else []
+            out.append(_case(rng, lik=lik, fpv=fpv, dtc=rng.choice([0, 1]), b=b, n=n, nan_policy=pol, nan_src=nan_src,
+                             steps=steps, pred_between=rng.choice([0, 1])))
+        # (16) lowered max_cholesky_size / max_root_decomposition_size: the non-default decomposition branches.  KISS-GP
+        #      pins method="cholesky" for its fantasy caches, so it stays exact (round 3: C04-8); the default strategy is
+        #      iterative there (assumption level)
+        for cs, fpv in itertools.product([0, 3], [0, 1]):
+            out.append(_case(rng, strategy="wiski", kernel="rbf", d=1, fpv=fpv, dtc=rng.choice([0, 1]), no_grad=1, chol_size=cs,
+                             n=rng.randint(4, 7), steps=[_step(rng, rng.choice(["plain", "per"]), F=2, f=rng.randint(1, 2))
+                                                         for _ in range(rng.choice([1, 2]))]))
+        out.append(_case(rng, strategy="wiski", kernel="rbf", d=2, fpv=1, no_grad=1, chol_size=5, n=6,
+                         steps=[_step(rng, "plain", f=2)]))
+        for lik, (cs, rs) in zip(liks * 2, [(0, None), (3, None), (0, 2), (3, 2), (None, 2), (0, 100)]):
+            out.append(_case(rng, lik=lik, fpv=rng.choice([0, 1]), chol_size=cs, root_size=rs, b=rng.choice([[], [2]]),
+                             n=rng.randint(4, 6), steps=[_step(rng, rng.choice(["plain", "per", "shared"]), F=2, f=2)]))
+        # (17) fast_pred_var x fast_pred_samples at creation, then further predictions of the SAME fantasy object with the
+        #      settings toggled in every order (round 3: C04-9)
+        cells = list(itertools.product([0, 1], [0, 1]))
+        for (fpv, fps) in cells:
+            others = [c for c in cells if c != (fpv, fps)]
+            rng.shuffle(others)
+            out.append(_case(rng, strategy="wiski", kernel="rbf", d=rng.choice([1, 2]), fpv=fpv, fps=fps, no_grad=1,
+                             n=rng.randint(4, 7), toggle=[list(others[0]), list(others[1]), [fpv, fps]],
+                             steps=[_step(rng, rng.choice(["plain", "per"]), F=2, f=rng.randint(1, 2))
+                                    for _ in range(rng.choice([1, 2]))]))
+            out.append(_case(rng, lik=rng.choice(liks), fpv=fpv, fps=fps, b=rng.choice([[], [2]]), n=rng.randint(3, 6),
+                             toggle=[list(others[2]), list(others[0])],
+                             steps=[_step(rng, rng.choice(["plain", "per", "shared"]), F=2, f=2)]))
+        # (18) the SOURCE is modified (train-mode parameter update, load_state_dict, set_train_data) after the fantasy
+        #      model was created and before it is first used: the fantasy model must not follow it (fixed 975fbb8)
+        for i, (ps_, lik) in enumerate(itertools.product(["train_step", "load_state", "set_data"], liks)):
+            out.append(_case(rng, lik=lik, fpv=i % 2, dtc=rng.choice([0, 1]), post_src=ps_, b=rng.choice([[], [2]]),
+                             n=rng.randint(3, 6), kernel=rng.choice(["rbf", "matern", "linear"]),
+                             steps=[_step(rng, rng.choice(["plain", "per", "shared"]), F=2, f=2)
+                                    for _ in range(rng.choice([1, 2]))]))
     return out
+
+
+def iterative(cfg):
+    """cells in which the UNCHANGED code itself goes through CG / Lanczos (numerics at assumption level only)"""
+    return bool(cfg.get("lanczos")) or (cfg["strategy"] == "default"
+                                        and (cfg.get("chol_size") is not None or cfg.get("root_size") is not None))
 
 
 # cells that the implementation is known to support: a raise there is a failure, not a `rejected`
 def expected_supported(cfg):
-    if cfg.get("lanczos") or cfg.get("poison") or cfg.get("empty"):
+    if iterative(cfg) or cfg.get("poison") or cfg.get("empty"):
         return False
     if cfg["strategy"] == "wiski":
-        return bool(cfg["no_grad"]) and cfg["lik"] == "gauss" and all(s["mode"] == "plain" for s in cfg["steps"])
+        return bool(cfg["no_grad"]) and cfg["lik"] == "gauss" and all(s["mode"] in ("plain", "per") for s in cfg["steps"])
     if cfg["lik"] == "mt":
         return False
     return all(s["noise"] == "match" for s in cfg["steps"])
@@ -555,6 +631,12 @@ def _run_case(cfg):
             p0 = source(xs)
         p0m, p0c = p0.mean.detach().clone(), p0.covariance_matrix.detach().clone()
         rec["strategy_class"] = type(source.prediction_strategy).__name__
+        # the property's hyper-parameters are those the source has NOW (every fantasy model is a copy of them); the
+        # source itself may be modified later (`post_src`)
+        spec = source
+        if cfg.get("post_src"):
+            import copy
+            spec = copy.deepcopy(source)
         if cfg.get("via_list"):
             acfg = dict(cfg, lik=cfg.get("aux_lik", "gauss"), b=[], strategy="default", n=3)
             aux, _, _, _ = build_source(acfg, gen)
@@ -586,7 +668,10 @@ def _run_case(cfg):
                 xf[..., -1, :] = X_full.expand(*B, *X_full.shape[-2:])[..., 0, :]     # equal values, different tensor
             if stp.get("zero_resid") and not mt:
                 with torch.no_grad():
-                    yf = source.mean_module(xf.expand(*Bn, f, d)).expand(*yshape).clone()   # y_f - mu_f = 0 exactly
+                    yf = spec.mean_module(xf.expand(*Bn, f, d)).expand(*yshape).clone()   # y_f - mu_f = 0 exactly
+            for i in stp.get("nan_f") or []:
+                yf = yf.clone()
+                yf[..., i] = float("nan")      # a missing fantasy target
             kw = {}
             nz = None
             if cfg["lik"] in ("fixed", "fixedl"):
@@ -708,7 +793,8 @@ def _run_case(cfg):
             # train data of the new model
             ti = _expand_to(nxt.train_inputs[0], Bn, (N, d))
             tt = _expand_to(nxt.train_targets, Bn, (N, *ytail))
-            srec["train_ok"] = bool(ti is not None and tt is not None and torch.equal(ti, X_full) and torch.equal(tt, Y_full))
+            srec["train_ok"] = bool(ti is not None and tt is not None and torch.equal(ti, X_full) and _same(tt, Y_full))
+            srec["skip_caches"] = bool(cfg.get("nan_policy"))
             srec["train_shapes"] = [list(nxt.train_inputs[0].shape), list(nxt.train_targets.shape)]
             # ---- carried caches, read before the new model predicts
             fs = nxt.prediction_strategy
@@ -741,6 +827,27 @@ def _run_case(cfg):
                     srec["wmat_src"] = cur.prediction_strategy.prepare_dense_wmat().to_dense().detach()
                     srec["Kuu"] = fs.train_prior_dist.lazy_covariance_matrix.base_linear_op.to_dense().detach()
                     srec["Lroot"] = None if P is None else P.root_decomposition(method="cholesky").root.to_dense().detach()
+            # ---- the source of this step is modified (documented operations) before the fantasy model is first used
+            ps_ = cfg.get("post_src")
+            if ps_:
+                with torch.no_grad():
+                    if ps_ == "train_step":            # what an optimiser step on the source does
+                        cur.train()
+                        for nm_, prm in cur.named_parameters():
+                            if nm_.endswith("raw_lengthscale") or nm_.endswith("raw_outputscale") or nm_.endswith("raw_constant") \
+                                    or nm_.endswith("raw_variance"):
+                                prm.add_(-0.9)
+                        cur.eval()
+                    elif ps_ == "load_state":
+                        sd = {k: v.clone() for k, v in cur.state_dict().items()}
+                        for k in sd:
+                            if k.endswith("raw_lengthscale") or k.endswith("raw_outputscale") or k.endswith("raw_constant") \
+                                    or k.endswith("raw_variance"):
+                                sd[k] = sd[k] + 0.8
+                        cur.load_state_dict(sd)
+                    elif ps_ == "set_data":
+                        cur.set_train_data(inputs=_rand(gen, *cur.train_inputs[0].shape),
+                                           targets=_randn(gen, *cur.train_targets.shape), strict=False)
             # ---- prediction of the fantasy model
             try:
                 with contextlib.ExitStack() as st2:
@@ -749,15 +856,28 @@ def _run_case(cfg):
                     pf = nxt(xs)
                     srec["pm"] = pf.mean.detach().reshape(*Bn, t * TT)
                     srec["pc"] = pf.covariance_matrix.detach()
+                # ---- further predictions of the SAME fantasy object with the settings toggled
+                srec["toggled"] = []
+                for tg in cfg.get("toggle") or []:
+                    with gpytorch.settings.fast_pred_var(bool(tg[0])), gpytorch.settings.fast_pred_samples(bool(tg[1])):
+                        try:
+                            pt = nxt(xs)
+                            srec["toggled"].append({"set": list(tg), "pm": pt.mean.detach().reshape(*Bn, t * TT),
+                                                    "pc": pt.covariance_matrix.detach()})
+                        except Exception as e:  # noqa: BLE001
+                            srec["toggled"].append({"set": list(tg), "error": f"{type(e).__name__}: {str(e)[:120]}"})
+                with contextlib.ExitStack() as st2:
+                    if cfg.get("fpv_pred") is not None:
+                        st2.enter_context(gpytorch.settings.fast_pred_var(bool(cfg["fpv_pred"])))
                     if not mt and cfg["strategy"] == "default":
                         # observation-noise predictive through the fantasy likelihood (call-time noise for FixedNoise)
                         if cfg["lik"] == "gauss":
                             po = nxt.likelihood(pf)
-                            add = source.likelihood.noise.detach().expand(*b, 1).expand(*Bn, 1).expand(*Bn, t)
+                            add = spec.likelihood.noise.detach().expand(*b, 1).expand(*Bn, 1).expand(*Bn, t)
                         else:
                             tn = _rand(gen, *Bn, t, lo=0.05, hi=0.5)
                             po = nxt.likelihood(pf, noise=tn)
-                            add = tn + (source.likelihood.second_noise.detach().expand(*b, 1).expand(*Bn, 1)
+                            add = tn + (spec.likelihood.second_noise.detach().expand(*b, 1).expand(*Bn, 1)
                                         if cfg["lik"] == "fixedl" else 0.0)
                         srec["po"] = po.covariance_matrix.detach()
                         srec["po_add"] = add
@@ -772,7 +892,7 @@ def _run_case(cfg):
                 break
             # ---- fresh model on the concatenated data
             try:
-                fresh = build_fresh(cfg, source, X_full, Y_full, N_full)
+                fresh = build_fresh(cfg, spec, X_full, Y_full, N_full)
                 pq = fresh(xs)
                 srec["qm"] = pq.mean.detach().reshape(*Bn, t * TT)
                 srec["qc"] = pq.covariance_matrix.detach()
@@ -781,8 +901,8 @@ def _run_case(cfg):
             # ---- the property's K, m, noise evaluated densely with the source model's own modules
             with torch.no_grad():
                 Xall = torch.cat([X_full, xs.expand(*Bn, t, d)], -2)
-                Kall = source.covar_module(Xall).to_dense()
-                mall = source.mean_module(Xall)
+                Kall = spec.covar_module(Xall).to_dense()
+                mall = spec.mean_module(Xall)
                 if mt:
                     mall = mall.reshape(*mall.shape[:-2], -1)
                 Kall = _expand_to(Kall, Bn, ((N + t) * TT, (N + t) * TT))
@@ -790,7 +910,7 @@ def _run_case(cfg):
                 # is symmetric; (K + K^T)/2 in float is exactly symmetric and within one ulp of what the code sees.
                 Kall = (Kall + Kall.mT) / 2
                 mall = _expand_to(mall, Bn, ((N + t) * TT,))
-                lik = source.likelihood
+                lik = spec.likelihood
                 if cfg["lik"] == "gauss":
                     D = lik.noise.expand(*b, 1).expand(*Bn, 1).expand(*Bn, N)
                 elif cfg["lik"] == "fixed":
@@ -807,8 +927,8 @@ def _run_case(cfg):
             if cfg["pred_between"]:
                 cur(xs)
         # the original source once more, after everything
-        pz = source(xs)
-        if not (torch.equal(pz.mean, p0m) and torch.equal(pz.covariance_matrix, p0c)):
+        pz = p0 if cfg.get("post_src") else source(xs)
+        if not cfg.get("post_src") and not (torch.equal(pz.mean, p0m) and torch.equal(pz.covariance_matrix, p0c)):
             rec["frame"].append((len(cfg["steps"]), "prediction", "prediction of the original source changed after "
                                  "the whole chain of fantasy models was created and used"))
     return rec
@@ -828,13 +948,28 @@ def _elements(B, rng_label, limit):
     return sorted(set(keep))
 
 
-def fant_line(srec, e, TT, t):
-    """`fant k A r (U S rf)* Kt Ktt mt` for batch element `e` of step record `srec`."""
+def observed_system(srec, e, TT):
+    """The property's data for batch element `e`: `J`, `r`, test blocks and segment sizes with the rows / columns of
+    missing (NaN) observations DELETED (an exact GP conditioned on the observed points only)."""
+    import torch
     K, m, D, y = srec["K"][e], srec["m"][e], srec["D"][e], srec["y"][e]
     sizes = [s * TT for s in srec["sizes"]]
     N = sum(sizes)
-    J = K[:N, :N] + D.diag_embed()
-    r = (y - m[:N]).unsqueeze(-1)
+    keep = ~torch.isnan(y)
+    idx = torch.nonzero(keep).reshape(-1)
+    J = (K[:N, :N] + D.diag_embed())[idx][:, idx]
+    r = (y - m[:N])[idx].unsqueeze(-1)
+    ks, o = [], 0
+    for sz in sizes:
+        ks.append(int(keep[o:o + sz].sum()))
+        o += sz
+    ks = [ks[0]] + [k for k in ks[1:] if k > 0]        # a step whose targets are all missing adds nothing
+    return J, r, K[N:, :N][:, idx], K[N:, N:], m[N:], ks
+
+
+def fant_line(srec, e, TT, t):
+    """`fant k A r (U S rf)* Kt Ktt mt` for batch element `e` of step record `srec`."""
+    J, r, Kt, Ktt, mt_, sizes = observed_system(srec, e, TT)
     toks = ["fant", str(len(sizes) - 1)]
     n0 = sizes[0]
     toks += [C.mat_tokens(J[:n0, :n0]), C.mat_tokens(r[:n0])]
@@ -842,7 +977,7 @@ def fant_line(srec, e, TT, t):
     for fsz in sizes[1:]:
         toks += [C.mat_tokens(J[o:o + fsz, :o]), C.mat_tokens(J[o:o + fsz, o:o + fsz]), C.mat_tokens(r[o:o + fsz])]
         o += fsz
-    toks += [C.mat_tokens(K[N:, :N]), C.mat_tokens(K[N:, N:]), C.mat_tokens(m[N:].unsqueeze(-1))]
+    toks += [C.mat_tokens(Kt), C.mat_tokens(Ktt), C.mat_tokens(mt_.unsqueeze(-1))]
     return " ".join(toks)
 
 
@@ -908,17 +1043,13 @@ def run_driver_parallel(lines, workers=8, chunk=24):
 
 def float_oracle(srec, e, TT):
     import torch
-    K, m, D, y = srec["K"][e], srec["m"][e], srec["D"][e], srec["y"][e]
-    N = sum(srec["sizes"]) * TT
-    J = K[:N, :N] + D.diag_embed()
+    J, r, Kt, Ktt, mt_, _ = observed_system(srec, e, TT)
     Ji = torch.linalg.inv(J)
-    r = y - m[:N]
-    mc = Ji @ r
-    Kt = K[N:, :N]
+    mc = Ji @ r.squeeze(-1)
     kappa = float(J.abs().sum(-1).max() * Ji.abs().sum(-1).max())
     return {"status": "ok", "eq": "111111", "kappa": kappa,
-            "mats": [mc.unsqueeze(-1).numpy(), Ji.numpy(), (m[N:] + Kt @ mc).unsqueeze(-1).numpy(),
-                     (K[N:, N:] - Kt @ Ji @ Kt.T).numpy()]}
+            "mats": [mc.unsqueeze(-1).numpy(), Ji.numpy(), (mt_ + Kt @ mc).unsqueeze(-1).numpy(),
+                     (Ktt - Kt @ Ji @ Kt.T).numpy()]}
 
 
 # ------------------------------------------------------------------ comparison
@@ -928,11 +1059,16 @@ def _maxabs(a):
     return float(np.max(np.abs(a))) if a.size else 0.0
 
 
-def _tol(cfg, kappa, n, scale):
+def _tol(cfg, kappa, n, scale, fps=False):
     if cfg["strategy"] == "wiski":
-        # Cholesky of the singular low-rank matrix W D^-1 W^T is jittered (1e-8) by linear_operator
-        return 2e-6 * max(1.0, scale)
-    if cfg.get("lanczos"):
+        # Cholesky of the singular low-rank matrix W D^-1 W^T is jittered (1e-8) by linear_operator; under
+        # fast_pred_samples the covariance goes through one more jittered Cholesky root (observed 8e-6 relative)
+        if cfg.get("chol_size") is not None:
+            # the root of W D^-1 W^T stays a (pinned) Cholesky root, but the solves with Q = L^T K L + 1 go through CG
+            # below max_cholesky_size: linear_operator's CG stagnates at 1e-6 .. 1e-5 relative (observed 1.1e-5)
+            return 2e-4 * max(1.0, scale)
+        return (1e-4 if fps else 2e-6) * max(1.0, scale)
+    if iterative(cfg):
         return 2e-3 * max(1.0, scale)
     return (1e-9 + 64 * n * kappa * 2.0 ** -52) * max(1.0, scale)
 
@@ -947,18 +1083,21 @@ def compare_step(ctx, cfg, srec, e, exact, key_prefix, replay, fail, broke):
     K, D = srec["K"][e].numpy(), srec["D"][e].numpy()
     J = K[:N, :N] + np.diag(D)
 
-    def chk(name, got, want, kind="fail"):
+    def chk(name, got, want, kind="fail", fps=False):
         if got is None:
             return
         got = np.asarray(got, dtype=float).reshape(want.shape)
         scale = _maxabs(want)
-        tol = _tol(cfg, kappa, N, scale)
+        tol = _tol(cfg, kappa, N, scale, fps=fps)
         err = _maxabs(got - want)
-        ename = ("lanczos:" if cfg.get("lanczos") else "wiski:" if cfg["strategy"] == "wiski" else "") + name
+        if not np.all(np.isfinite(got)):
+            err = float("inf")
+        ename = ("lanczos:" if iterative(cfg) else "wiski:" if cfg["strategy"] == "wiski" else "") + name
         ctx.notes["max_err"][ename] = max(ctx.notes["max_err"].get(ename, 0.0), err / max(1.0, scale))
-        if not (err <= tol) and cfg.get("lanczos"):
-            ctx.assumption(f"linear_operator Lanczos accuracy: {name} off by {err:.2e} (tol {tol:.1e}) in a full-rank "
-                           f"Lanczos cell (max_cholesky_size(0)); not counted against gpytorch")
+        if not (err <= tol) and iterative(cfg):
+            ctx.assumption(f"linear_operator CG / Lanczos accuracy: {name} off by {err:.2e} (tol {tol:.1e}) in a cell with "
+                           f"lowered max_cholesky_size / max_root_decomposition_size (the unchanged code is iterative "
+                           f"there); not counted against gpytorch")
             return
         if not (err <= tol):
             what = (f"{name}: |observed - exact| = {err:.3e} > tol {tol:.1e} (kappa={kappa:.1e}, N={N}) for "
@@ -966,7 +1105,7 @@ def compare_step(ctx, cfg, srec, e, exact, key_prefix, replay, fail, broke):
                     f"fpv={cfg['fpv']} element {list(e)}")
             (fail if kind == "fail" else broke)(f"{key_prefix}:{name}", what, dict(replay, element=list(e), err=err, tol=tol))
 
-    obs = srec["obs"]
+    obs = {} if srec.get("skip_caches") else srec["obs"]
     if cfg["strategy"] == "default":
         if obs.get("mean_cache") is not None:
             chk("mean_cache", obs["mean_cache"][e].numpy().reshape(-1, 1), mc_x)
@@ -977,9 +1116,21 @@ def compare_step(ctx, cfg, srec, e, exact, key_prefix, replay, fail, broke):
         if obs.get("root") is not None:
             Z = obs["root"][e].numpy()
             chk("root", Z @ Z.T, J)
+    fps0 = bool(cfg.get("fps"))
     if srec.get("pm") is not None:
-        chk("pred-mean", srec["pm"][e].numpy().reshape(-1, 1), pm_x)
-        chk("pred-covar", srec["pc"][e].numpy(), pc_x)
+        chk("pred-mean", srec["pm"][e].numpy().reshape(-1, 1), pm_x, fps=fps0)
+        chk("pred-covar", srec["pc"][e].numpy(), pc_x, fps=fps0)
+    for tg in srec.get("toggled") or []:
+        # the same fantasy object, predicted again under other settings: still the conditional on all the data
+        lab = f"toggle:fpv{tg['set'][0]}fps{tg['set'][1]}"
+        if "error" in tg:
+            if e == tuple(0 for _ in e) or not e:
+                fail(f"{key_prefix}:toggle:raises", f"second prediction of one fantasy object under fast_pred_var="
+                     f"{tg['set'][0]}, fast_pred_samples={tg['set'][1]} (created under fpv={cfg['fpv']}, fps={cfg.get('fps', 0)}) "
+                     f"raised {tg['error']}", dict(replay, toggle=tg["set"]))
+            continue
+        chk("toggle:pred-mean", tg["pm"][e].numpy().reshape(-1, 1), pm_x, fps=bool(tg["set"][1]))
+        chk("toggle:pred-covar", tg["pc"][e].numpy(), pc_x, fps=bool(tg["set"][1]))
     if srec.get("po") is not None and srec.get("pm") is not None:
         chk("marginal-covar", srec["po"][e].numpy(), pc_x + np.diag(srec["po_add"][e].numpy()))
     if srec.get("qm") is not None:
@@ -1009,6 +1160,8 @@ def _run_all(ctx, case_list, use_driver=True, element_limit=3):
         kp = f"fantasy:{lname}:{cfg['strategy']}"
         if any(st_.get("noise_kind", "rand") != "rand" for st_ in cfg["steps"]):
             kp += ":noise-floor"
+        if cfg.get("post_src"):
+            kp += ":source-edit"
         try:
             rec = run_case(cfg)
         except Exception as e:  # noqa: BLE001  the harness itself (or model construction) failed
@@ -1057,7 +1210,7 @@ def _run_all(ctx, case_list, use_driver=True, element_limit=3):
                      f"(shapes {srec['train_shapes']}, expected batch {srec['B']} N={sum(srec['sizes'])})", dict(rp, step=srec["si"]))
             if "fresh_error" in srec:
                 broke(f"{kp}:fresh", f"fresh model failed: {srec['fresh_error']}", rp)
-            if cfg["strategy"] == "default":
+            if cfg["strategy"] == "default" and not srec.get("skip_caches"):
                 for nm, present in srec["obs_present"].items():
                     if not present:
                         broke(f"{kp}:cache-missing:{nm}", f"fantasy strategy carries no `{nm}` entry", rp)
@@ -1080,7 +1233,8 @@ def _run_all(ctx, case_list, use_driver=True, element_limit=3):
                                            C.mat_tokens(srec["noise_full"][e][n0:].unsqueeze(-1))]))
                     pending.append(("noisecat", cfg, srec, e, kp, rp))
             # model of cat_rows on the observed factors (one element)
-            if (use_driver and cfg["strategy"] == "default" and not cfg.get("lanczos") and min(srec["sizes"]) > 0
+            if (use_driver and cfg["strategy"] == "default" and not iterative(cfg) and not srec.get("skip_caches")
+                    and min(srec["sizes"]) > 0
                     and srec.get("src_root") is not None and srec.get("src_root_inv") is not None
                     and srec["obs"].get("root") is not None):
                 e = _elements(B, "r", 1)[0]
@@ -1157,7 +1311,7 @@ def _run_all(ctx, case_list, use_driver=True, element_limit=3):
                 err = _maxabs(fo - mcg)
                 ctx.notes["max_err"]["wiski:fantasy_mean_cache-vs-generated"] = max(
                     ctx.notes["max_err"].get("wiski:fantasy_mean_cache-vs-generated", 0.0), err / max(1.0, _maxabs(mcg)))
-                if err > 1e-7 * max(1.0, _maxabs(mcg)):
+                if err > (2e-4 if cfg.get("chol_size") is not None else 1e-7) * max(1.0, _maxabs(mcg)):
                     broke(f"{kp}:generated-fantasy_mean_cache", f"fantasy_mean_cache differs from the generated Woodbury "
                           f"form on the observed root by {err:.3e}", rp)
         elif kind == "noisecat":
